@@ -293,11 +293,17 @@ def run_one(ck, prog):
     # and the constants an entry can carry are the reviewed ones (opcode, AT_FDCWD, IORING_TIMEOUT_ABS ..): frozen table c18_consts.json
     cpath = os.path.join(os.path.dirname(__file__), "c18_consts.json")
     frozen = _json.load(open(cpath)) if os.path.exists(cpath) else {}
+    def dirfd_default(ctor):
+        # AT_FDCWD (-100) is what a missing directory descriptor stands for (unpack_dir_fd, checked by none-dirfd-is-at-fdcwd): a constructor
+        # that takes an Option<Fd> directory may spell that default itself
+        f_ = prog.fns.get(Q + "IoUringSubmissionQueueEntry::new_" + ctor)
+        has_opt_fd = f_ is not None and any("Option<" in str(f_["locals"][i_]["ty"]) and ("Fd" in str(f_["locals"][i_]["ty"]) or "NonNegativeI32" in str(f_["locals"][i_]["ty"])) for i_ in range(1, f_["argc"] + 1))
+        return {-100} if has_opt_fd else set()
     for ctor, (consts, arith) in sorted(sqe_constants_and_arith(prog).items()):
         ck.ob("C18.4", f"new_{ctor}|arguments-reach-the-entry-unmodified", not arith, fn=Q + "IoUringSubmissionQueueEntry::new_" + ctor,
               detail=f"a parameter is transformed before it is stored in the entry: {arith}")
         want_c = frozen.get(ctor)
-        ck.ob("C18.4", f"new_{ctor}|entry-constants-are-the-reviewed-ones", want_c is not None and set(consts) <= set(want_c), fn=Q + "IoUringSubmissionQueueEntry::new_" + ctor,
+        ck.ob("C18.4", f"new_{ctor}|entry-constants-are-the-reviewed-ones", want_c is not None and (set(consts) - dirfd_default(ctor)) <= set(want_c), fn=Q + "IoUringSubmissionQueueEntry::new_" + ctor,
               detail=f"constants that can reach the entry: {consts}; reviewed: {want_c} (a new constant - a flag bit, a clock selector - changes what the kernel is asked to do)")
     ck.floor("C18.4", "SQE constructors", n, 16 if ck.config == "C" else 19)   # three constructors need alloc
     # the flag words handed to the kernel: each named bit has the value the kernel header gives it (frozen table c18_flags.json), and no
@@ -359,9 +365,8 @@ def sqe_field_sources(prog):
                 for f, o in zip(e0[4], e0[3]):
                     flatten(str(f), o)
                 return
-            ps = sorted({z[1] for z in walk_deep(e, ctx.prov, limit=400) if z[0] == "param"})
-            for b2 in fn["blocks"]:     # a flag parameter that selects a constant reaches the field through its branch
-                pass
+            # (a bool parameter selects a constant - through a branch or as `u32::from(!relative) * ABS` - it is not a value the field carries)
+            ps = sorted({z[1] for z in walk_deep(e, ctx.prov, limit=400) if z[0] == "param" and str(fn["locals"][z[1]].get("ty")) != "bool"})
             v = ps if ps else fold(e)
             if v not in (0, None, []):
                 flat[name] = v
@@ -372,6 +377,36 @@ def sqe_field_sources(prog):
                         flatten(f, ctx.prov.operand(o, (b["id"], i)))
         out[m.group(1)] = flat
     return out
+
+
+def _ev_bool(e, env, ctx, depth=0):
+    """value of an integer expression over bool parameters (env: parameter index -> 0/1); None when not understood"""
+    e = strip_casts(e)
+    v = fold(e)
+    if v is not None:
+        return int(v)
+    if not isinstance(e, tuple) or depth > 12:
+        return None
+    if e[0] == "param":
+        return env.get(e[1])
+    if e[0] == "var":
+        ds = [_ev_bool(d, env, ctx, depth + 1) for d in ctx.prov.expand(e)]
+        return ds[0] if len(ds) == 1 else None
+    if e[0] == "un" and e[1] == "Not":
+        a = _ev_bool(e[2], env, ctx, depth + 1)
+        return None if a is None else (1 - a if a in (0, 1) else None)
+    if e[0] == "call" and (e[1] or "").endswith(("From::from", "Into::into", "::from", "::into")) and e[2]:
+        return _ev_bool(e[2][0], env, ctx, depth + 1)
+    if e[0] == "bin" and e[1] in ("Mul", "Add", "Sub", "BitOr", "BitAnd", "BitXor", "Shl", "MulWithOverflow", "AddWithOverflow"):
+        a, b = _ev_bool(e[2], env, ctx, depth + 1), _ev_bool(e[3], env, ctx, depth + 1)
+        if a is None or b is None:
+            return None
+        return {"Mul": a * b, "MulWithOverflow": a * b, "Add": a + b, "AddWithOverflow": a + b, "Sub": a - b, "BitOr": a | b, "BitAnd": a & b, "BitXor": a ^ b, "Shl": a << b}[e[1]]
+    if e[0] == "field" and isinstance(e[1], tuple) and e[1][0] in ("bin", "overflow") and str(e[2]) == "0":
+        return _ev_bool(e[1], env, ctx, depth + 1)
+    if e[0] == "overflow":
+        return _ev_bool(("bin",) + tuple(e[1:]), env, ctx, depth + 1)
+    return None
 
 
 def sqe_constants_and_arith(prog):
@@ -395,6 +430,14 @@ def sqe_constants_and_arith(prog):
                             is_arith = (z[0] == "bin" and z[1] not in ("Eq", "Ne", "Lt", "Gt", "Le", "Ge")) or \
                                 (z[0] == "call" and (z[1] or "").endswith(("::bitand", "::bitor", "::bitxor", "::not", "::shl", "::shr", "::wrapping_add", "::wrapping_sub", "::intersection", "::union", "::difference")))
                             if is_arith and any(w[0] == "param" for w in walk_deep(z, ctx.prov, limit=80)):
+                                ps_ = sorted({w[1] for w in walk_deep(z, ctx.prov, limit=80) if w[0] == "param"})
+                                if all(str(fn["locals"][q]["ty"]) == "bool" for q in ps_) and len(ps_) <= 3:
+                                    # a selection among constants written as arithmetic on a flag: enumerate it
+                                    import itertools as _it
+                                    vals_ = [_ev_bool(z, dict(zip(ps_, combo)), ctx) for combo in _it.product((0, 1), repeat=len(ps_))]
+                                    if all(isinstance(v_, int) for v_ in vals_):
+                                        consts.update(vals_)
+                                        continue
                                 arith.append(show(z)[:80])
                         v = fold(e)
                         if v is not None:
